@@ -401,7 +401,39 @@ func subConfig(out string, seed uint64, tier string, arg string) {
 				withDef, _ := g.Filter(lint.FilterOptions{ExcludeNames: []string{"e_no_such"}[:0], ExcludeSources: lint.SourceList{"NoSuchSource"}})
 				withDef.SetConfiguration(cfg)
 				empty, _ := lint.NewConfigFromString("")
-				unrelated, _ := lint.NewConfigFromString("[unrelated]\nx = 1\n[another]\ny = \"z\"\n")
+				// unrelated sections: arbitrary names, and names that are *near* a configurable lint's (the same lint name under another
+				// severity prefix, carrying that lint's options with other values, and once with an ill-typed value) — they name no lint
+				var near strings.Builder
+				near.WriteString("[unrelated]\nx = 1\n[another]\ny = \"z\"\n")
+				for _, k := range tree.Keys() {
+					sub, ok := tree.Get(k).(*toml.Tree)
+					if !ok || len(k) < 3 || k[1] != '_' {
+						continue
+					}
+					for _, pfx := range []string{"e", "w", "n"} {
+						if pfx == k[:1] {
+							continue
+						}
+						fmt.Fprintf(&near, "[%s%s]\n", pfx, k[1:])
+						for _, f := range sub.Keys() {
+							switch v := sub.Get(f).(type) {
+							case bool:
+								if pfx == "n" {
+									fmt.Fprintf(&near, "%s = \"yes\"\n", f)
+								} else {
+									fmt.Fprintf(&near, "%s = %v\n", f, !v)
+								}
+							case int64:
+								fmt.Fprintf(&near, "%s = %d\n", f, v+7)
+							}
+						}
+					}
+				}
+				unrelated, uerr := lint.NewConfigFromString(near.String())
+				if uerr != nil {
+					unrelated, _ = lint.NewConfigFromString("[unrelated]\nx = 1\n[another]\ny = \"z\"\n")
+					rep.count("near-name-sections:unloadable")
+				}
 				withEmpty, _ := g.Filter(lint.FilterOptions{ExcludeSources: lint.SourceList{"NoSuchSource"}})
 				withEmpty.SetConfiguration(empty)
 				withUnrel, _ := g.Filter(lint.FilterOptions{ExcludeSources: lint.SourceList{"NoSuchSource"}})
